@@ -31,6 +31,38 @@
 (*   ResultsAliased        the returned dictionary IS the memo: Mutate     *)
 (*                         poisons the next answer                         *)
 (*                         (MC_DebFileCache_neg_alias.cfg)                 *)
+(* Round 6 (faults of caller-supplied objects; ArFile-level calls):         *)
+(*   fh      ONE get_file() object that has delivered the head of a file   *)
+(*           and whose remainder is still to be read (ReadBegin / ReadEnd, *)
+(*           any other step of either package in between),                 *)
+(*   ArCall  DebFile is an ArFile: getmember / [] / getmembers / members / *)
+(*           getnames / iteration / extractfile only LOOK at the member    *)
+(*           table -- they leave every part (and a half-read file) alone,  *)
+(*   Fault   the file object the CALLER handed to DebFile(fileobj=...)     *)
+(*           raises once during a query: the caller's exception (or the    *)
+(*           package-format error) comes out and NOTHING changes (error    *)
+(*           atomicity) -- every later answer is the stateless one.        *)
+(*           Domain (FaultDomOf): the part's tarball has been opened by an *)
+(*           earlier successful query and the part is not gz-compressed.   *)
+(*           Outside of it the standard library itself is not restartable  *)
+(*           (tarfile.open(mode='r:*') leaves the member position where a  *)
+(*           foreign exception hit it; gzip re-reads its header after a    *)
+(*           backward seek and loses the two magic bytes): unspecified --  *)
+(*           the object is `tainted` until it is opened again; no answer   *)
+(*           of a tainted object is ever a verdict.  Early EOF / short     *)
+(*           reads are indistinguishable from a truncated package: never   *)
+(*           generated.                                                    *)
+(*   strm    parts whose sequential decompression stream was rewound       *)
+(*           behind the reader's back; scan: lazily walked name index of   *)
+(*           has_file (the code has neither).                              *)
+(* Negative controls (HistExact violated):                                 *)
+(*   GetMemberRewinds     getmember / [] rewinds the member it returns:    *)
+(*                        the remainder of a half-read file of that part   *)
+(*                        is garbage (MC_DebFileCache_neg_rewind.cfg)      *)
+(*   LazyScanDiesOnFault  has_file walks the tarball lazily with ONE       *)
+(*                        persistent iterator that a fault finalises:      *)
+(*                        later has_file of a name not yet seen is FALSE   *)
+(*                        (MC_DebFileCache_neg_scan.cfg)                   *)
 (* Output: with EmitH one HTAB line per (content generation of the two     *)
 (* packages, query) = the expected answer; the harness drives random       *)
 (* interleaved histories against two real open packages with it, and       *)
@@ -38,7 +70,7 @@
 (***************************************************************************)
 EXTENDS Naturals, Sequences, FiniteSets, TLC, Json
 
-CONSTANTS CacheKeyedByNameOnly, ContentCacheByFile, ResultsAliased, EmitH
+CONSTANTS CacheKeyedByNameOnly, ContentCacheByFile, ResultsAliased, GetMemberRewinds, LazyScanDiesOnFault, EmitH
 
 \* the stateless operators of DebFile.tla (its variables and configuration constants play no role here)
 D == INSTANCE DebFile WITH Universe <- <<>>, MaxLen <- 0, AnyOrder <- TRUE, InitMatrix <- FALSE,
@@ -54,15 +86,25 @@ VARIABLES objs,     \* <<package 1, package 2>>, each [pkg |-> [c, d, m], prts |
           ccache,   \* set of [k |-> key, v |-> get result]
           rmemo,    \* set of [k |-> <<o, op>>, v |-> dictionary result]
           last,     \* <<o, op>> of the dictionary returned last, or <<>>
+          fh,       \* <<>> or [o, p, n, out]: the half-read get_file() object and what reading it to the end gives
+          strm,     \* set of <<o, p>>: decompression stream rewound behind a half-read file (GetMemberRewinds only)
+          scan,     \* [dead |-> set of <<o, p>>, seen |-> set of <<o, p, key>>] (LazyScanDiesOnFault only)
+          taint,    \* objects hit by a fault outside FaultDomOf since they were opened: unspecified
           hres      \* the last call and its answer (output only)
 
-hvars == <<objs, gen, tcache, ccache, rmemo, last, hres>>
-HView == <<objs, gen, tcache, ccache, rmemo, last>>
+hvars == <<objs, gen, tcache, ccache, rmemo, last, fh, strm, scan, taint, hres>>
+HView == <<objs, gen, tcache, ccache, rmemo, last, fh, strm, scan, taint>>
+new   == <<fh, strm, scan, taint>>
 
 Objs     == {1, 2}
 HParts   == {"control", "data"}
 HNames   == {"f1", "f2", "control", "postinst", "absent"}
+RNames   == {"f1", "absent"}                              \* closed model: files a partial read is begun on
 QueryOps == {"has", "get", "scripts", "md5sums", "debcontrol"}
+ReadOps  == {"readbegin", "readend"}
+ArKinds  == {"getmember", "getitem", "getmembers", "members", "getnames", "iter", "extractfile"}
+ArNamed  == {"getmember", "getitem", "extractfile"}       \* calls that name one member
+ArWhich  == {"control", "data", "info"}                   \* the member named: a part's member or debian-binary
 
 \* the two contents of each path: same file names, different blobs; the rewrite also adds / drops files
 Content(o, g) ==
@@ -74,9 +116,10 @@ Content(o, g) ==
                             d |-> [f1 |-> 31, f2 |-> 32], m |-> [f1 |-> 131, f2 |-> 132]]
       [] o = 2 /\ g = 1 -> [c |-> [control |-> 61, md5sums |-> 62],
                             d |-> [f1 |-> 71, f2 |-> 72], m |-> <<>>]
-\* same control member name (a name-keyed memo collides), different data compression
+\* same control member name (a name-keyed memo collides), different data compression; the uncompressed
+\* data part of package 2 is read header by header straight from the file object the caller supplied
 PartsOf(o) == IF o = 1 THEN [ctrl |-> "control.tar.gz", data |-> "data.tar.xz"]
-                       ELSE [ctrl |-> "control.tar.gz", data |-> "data.tar.bz2"]
+                       ELSE [ctrl |-> "control.tar.gz", data |-> "data.tar"]
 
 ----------------------------------------------------------------------------
 PartContent(o, p) == [f |-> D!DMapOf(objs[o].pkg, p), m |-> objs[o].pkg.m]
@@ -112,24 +155,38 @@ Poison(out) == IF "map" \in DOMAIN out
                THEN [out EXCEPT !.map = [x \in DOMAIN out.map \cup {"junk"} |-> IF x = "junk" THEN 0 ELSE out.map[x]]]
                ELSE [out EXCEPT !.blob = 0]
 
+\* where a fault of the caller's file object is specified to leave no trace
+FaultDomOf(prt, p, opened) == opened /\ D!DComp(D!DNameOf(prt, p)) # "gz"
+FaultDom(o, p) == FaultDomOf(objs[o].prts, p, THit(o, p) # {})
+\* what a faulted query may raise: the caller's own exception object, or the package-format error
+FaultExc == {"caller", "DebError"}
+
 ----------------------------------------------------------------------------
 Tab(op, o, args, out) ==
-    (EmitH /\ tcache = {} /\ last = <<>>) =>
+    (EmitH /\ op \in QueryOps /\ tcache = {} /\ last = <<>> /\ fh = <<>> /\ taint = {}) =>
         PrintT(<<"HTAB", ToJson([g |-> gen, o |-> o, op |-> op, args |-> args, out |-> out,
                                  pkg |-> objs[o].pkg, prts |-> objs[o].prts])>>)
 
 Init == /\ gen = [o \in Objs |-> 0]
         /\ objs = [o \in Objs |-> [pkg |-> Content(o, 0), prts |-> PartsOf(o)]]
         /\ tcache = {} /\ ccache = {} /\ rmemo = {} /\ last = <<>>
+        /\ fh = <<>> /\ strm = {} /\ scan = [dead |-> {}, seen |-> {}] /\ taint = {}
         /\ hres = [op |-> "init"]
+        /\ (EmitH => PrintT(<<"FDOM", ToJson([dom |-> [o \in Objs |-> [p \in HParts |-> FaultDomOf(PartsOf(o), p, TRUE)]],
+                                                  exc |-> FaultExc])>>))
 
 Answer(op, o, args, out) == /\ hres' = [op |-> op, o |-> o, args |-> args, out |-> out]
                             /\ Tab(op, o, args, out)
 
 HasFile(o, p, sp, n) ==
-    /\ Answer("has", o, <<p, sp, n>>, AHas(o, p, D!DSpell(sp, n)))
-    /\ tcache' = TFill(o, p)
-    /\ UNCHANGED <<objs, gen, ccache, rmemo, last>>
+    LET k   == D!DLookup(D!DSpell(sp, n))
+        a   == AHas(o, p, D!DSpell(sp, n))
+        out == IF LazyScanDiesOnFault /\ <<o, p>> \in scan.dead /\ <<o, p, k>> \notin scan.seen
+               THEN [a EXCEPT !.found = FALSE] ELSE a
+    IN /\ Answer("has", o, <<p, sp, n>>, out)
+       /\ tcache' = TFill(o, p)
+       /\ scan' = IF LazyScanDiesOnFault /\ out.found THEN [scan EXCEPT !.seen = @ \cup {<<o, p, k>>}] ELSE scan
+       /\ UNCHANGED <<objs, gen, ccache, rmemo, last, fh, strm, taint>>
 
 GetContent(o, p, sp, n) ==
     LET path == D!DSpell(sp, n)
@@ -139,7 +196,7 @@ GetContent(o, p, sp, n) ==
     IN /\ Answer("get", o, <<p, sp, n>>, out)
        /\ tcache' = IF ContentCacheByFile /\ hit # {} THEN tcache ELSE TFill(o, p)
        /\ ccache' = IF ContentCacheByFile /\ hit = {} THEN ccache \cup {[k |-> ck, v |-> out]} ELSE ccache
-       /\ UNCHANGED <<objs, gen, rmemo, last>>
+       /\ UNCHANGED <<objs, gen, rmemo, last, new>>
 
 DictCall(op, o, fresh) ==
     LET hit == {e \in rmemo : e.k = <<o, op>>}
@@ -148,7 +205,7 @@ DictCall(op, o, fresh) ==
        /\ tcache' = IF ResultsAliased /\ hit # {} THEN tcache ELSE TFill(o, "control")
        /\ rmemo' = IF ResultsAliased /\ hit = {} THEN rmemo \cup {[k |-> <<o, op>>, v |-> out]} ELSE rmemo
        /\ last' = <<o, op>>
-       /\ UNCHANGED <<objs, gen, ccache>>
+       /\ UNCHANGED <<objs, gen, ccache, new>>
 
 Scripts(o)    == DictCall("scripts", o, AScripts(o))
 Md5sums(o)    == DictCall("md5sums", o, AMd5(o))
@@ -160,7 +217,7 @@ Mutate == /\ rmemo' = IF ResultsAliased /\ last # <<>>
                       THEN {IF e.k = last THEN [e EXCEPT !.v = Poison(e.v)] ELSE e : e \in rmemo}
                       ELSE rmemo
           /\ hres' = [op |-> "mutate"]
-          /\ UNCHANGED <<objs, gen, tcache, ccache, last>>
+          /\ UNCHANGED <<objs, gen, tcache, ccache, last, new>>
 
 \* the file of package o is rewritten (same member names) and opened again: a new object
 Reopen(o, np) ==
@@ -169,23 +226,83 @@ Reopen(o, np) ==
     /\ rmemo' = {e \in rmemo : e.k[1] # o}
     /\ last' = IF last # <<>> /\ last[1] = o THEN <<>> ELSE last
     /\ hres' = [op |-> "reopen", o |-> o]
+    /\ fh' = IF fh # <<>> /\ fh.o = o THEN <<>> ELSE fh       \* file objects of the old object are dropped
+    /\ strm' = {e \in strm : e[1] # o}
+    /\ scan' = [dead |-> {e \in scan.dead : e[1] # o}, seen |-> {e \in scan.seen : e[1] # o}]
+    /\ taint' = taint \ {o}
     /\ UNCHANGED ccache
+
+\* get_file(path) and a read of the head of the file; the remainder is read later (ReadEnd)
+ReadBegin(o, p, sp, n) ==
+    LET out == AGet(o, p, D!DSpell(sp, n)) IN
+    /\ fh = <<>>
+    /\ Answer("readbegin", o, <<p, sp, n>>, [err |-> out.err, found |-> out.found])
+    /\ fh' = IF out.found THEN [o |-> o, p |-> p, n |-> D!DNorm(D!DSpell(sp, n))[1], out |-> out] ELSE <<>>
+    /\ tcache' = TFill(o, p)
+    /\ UNCHANGED <<objs, gen, ccache, rmemo, last, strm, scan, taint>>
+
+\* the remainder of the half-read file: head + remainder is the packed content
+ReadEnd ==
+    /\ fh # <<>>
+    /\ Answer("readend", fh.o, <<fh.p, "plain", fh.n>>,
+              IF <<fh.o, fh.p>> \in strm THEN [err |-> "corrupt", found |-> FALSE, blob |-> 0] ELSE fh.out)
+    /\ fh' = <<>>
+    /\ UNCHANGED <<objs, gen, tcache, ccache, rmemo, last, strm, scan, taint>>
+
+\* the ArFile view of the package: nothing but the member table is consulted
+ArCall(o, kind, w) ==
+    /\ hres' = [op |-> "ar", o |-> o, kind |-> kind, w |-> w, out |-> [err |-> ""]]
+    /\ strm' = IF GetMemberRewinds /\ kind \in {"getmember", "getitem"} /\ fh # <<>> /\ fh.o = o /\ fh.p = w
+               THEN strm \cup {<<o, w>>} ELSE strm
+    /\ UNCHANGED <<objs, gen, tcache, ccache, rmemo, last, fh, scan, taint>>
+
+\* the caller's file object raises during query q of part p of object o: the exception comes out,
+\* nothing changes; a faulted ReadEnd: the caller drops the file object.  Outside the domain: taint
+FaultPart(q, args) == IF q \in {"has", "get", "readbegin"} THEN args[1] ELSE IF q = "readend" THEN fh.p ELSE "control"
+Fault(o, q, args) ==
+    LET p == FaultPart(q, args) IN
+    /\ q = "readend" => fh # <<>> /\ fh.o = o
+    /\ q = "readbegin" => fh = <<>>
+    /\ hres' = [op |-> "fault", o |-> o, q |-> q, args |-> args, dom |-> FaultDom(o, p)]
+    /\ taint' = IF FaultDom(o, p) THEN taint ELSE taint \cup {o}
+    /\ fh' = IF fh # <<>> /\ fh.o = o /\ (q = "readend" \/ ~FaultDom(o, p)) THEN <<>> ELSE fh
+    /\ scan' = IF LazyScanDiesOnFault /\ q = "has" THEN [scan EXCEPT !.dead = @ \cup {<<o, p>>}] ELSE scan
+    /\ UNCHANGED <<objs, gen, tcache, ccache, rmemo, last, strm>>
 
 Next == \/ \E o \in Objs :
             \/ \E p \in HParts, sp \in D!Spellings, n \in HNames : HasFile(o, p, sp, n) \/ GetContent(o, p, sp, n)
             \/ Scripts(o) \/ Md5sums(o) \/ DebControl(o)
+            \/ \E p \in HParts, sp \in D!Spellings, n \in RNames : ReadBegin(o, p, sp, n)
+            \* (closed model: one call that names a member and one that does not stand for ArKinds; faults
+            \*  inside the domain only -- an object tainted by one outside it has no specified answers)
+            \/ \E w \in ArWhich : ArCall(o, "getmember", w)
+            \/ ArCall(o, "getnames", "info")
+            \/ \E p \in HParts : FaultDom(o, p) /\ (Fault(o, "has", <<p, "plain", "f2">>) \/ Fault(o, "get", <<p, "slash", "f1">>))
+            \/ FaultDom(o, "control") /\ Fault(o, "md5sums", <<>>)
+            \/ fh # <<>> /\ fh.o = o /\ FaultDom(o, fh.p) /\ Fault(o, "readend", <<>>)
             \/ Reopen(o, Content(o, 1 - gen[o])) /\ gen' = [gen EXCEPT ![o] = 1 - @]
         \/ Mutate
+        \/ ReadEnd
 
 Spec == Init /\ [][Next]_hvars
 
 ----------------------------------------------------------------------------
 \* every answer in every history is the stateless reference answer for the package as it is now
-HistExact == [][hres'.op \in QueryOps => hres'.out = Ref(objs', hres'.o, hres'.op, hres'.args)]_hvars
+HistOk(h, ob, tn) ==
+    /\ (h.op \in QueryOps /\ h.o \notin tn) => (h.out = Ref(ob, h.o, h.op, h.args))
+    /\ (h.op = "readend" /\ h.o \notin tn) => (h.out = Ref(ob, h.o, "get", h.args))
+    /\ (h.op = "readbegin" /\ h.o \notin tn) =>
+           (LET r == Ref(ob, h.o, "get", h.args) IN h.out = [err |-> r.err, found |-> r.found])
+HistExact == [][HistOk(hres', objs', taint')]_hvars
 \* asking again (nothing re-opened in between) gives the same answer
 RepeatStable == [][(hres.op \in QueryOps /\ hres'.op = hres.op /\ hres'.o = hres.o /\ hres'.args = hres.args)
                       => hres'.out = hres.out]_hvars
 \* the memo of the code (keyed by object and part) always holds the content of that object's part
 CacheCoherent == (~CacheKeyedByNameOnly) => \A e \in tcache : e.v = PartContent(e.k[1], e.k[2])
 NoOtherMemo   == (~ContentCacheByFile /\ ~ResultsAliased) => ccache = {} /\ rmemo = {}
+\* the code keeps no per-part stream / scan state that the new steps could damage
+NoHiddenState == /\ (~GetMemberRewinds => strm = {})
+                 /\ (~LazyScanDiesOnFault => scan = [dead |-> {}, seen |-> {}])
+\* the pending remainder of a half-read file is the stateless answer for the object as it is now
+HandleSound   == fh # <<>> => fh.out = D!DGet(objs[fh.o].pkg, objs[fh.o].prts, fh.p, <<fh.n>>)
 =============================================================================
